@@ -211,6 +211,21 @@ func (o *oPause) step(s *stepCtx) {
 		o.checkViews(s, n, m, datatransfer.Events[e.Code])
 	}
 	o.checkViews(s, s.after, m, "query")
+	// a party that is recorded as paused can always be resumed while the transfer is
+	// still running from its point of view (otherwise it would stay paused for ever):
+	// the initiator while the status is a transferring one or the transfer has not
+	// started; the responder until it has completed
+	if !s.racing && len(s.entries) == 0 {
+		st := s.before.Status
+		notStarted := st == datatransfer.Requested || st == datatransfer.Queued
+		if s.act.Kind == "ResumeInitiator" && s.before.InitPaused && (notStarted || st.Transferring()) {
+			s.h.fail("C11/resume-ignored-while-paused", "ResumeInitiator was ignored in status %s although the initiator is recorded as paused", datatransfer.Statuses[st])
+		}
+		responderRunning := notStarted || st == datatransfer.AwaitingAcceptance || st == datatransfer.Ongoing || st == datatransfer.TransferFinished
+		if s.act.Kind == "ResumeResponder" && s.before.RespPaused && responderRunning {
+			s.h.fail("C11/resume-ignored-while-paused", "ResumeResponder was ignored in status %s although the responder is recorded as paused", datatransfer.Statuses[st])
+		}
+	}
 	if isPauseKind(s.act.Kind) && len(s.entries) == 0 && !s.racing {
 		// ignored: nothing may have changed
 		o.ignoredSeen++
